@@ -501,6 +501,25 @@ def run_options(ctx):
                     ctx.state_count += 1
                     check_shift(ctx, "greg", entry, offs, utc=True)
                     check_shift(ctx, "greg", entry, offs, utc=False)
+    # --parse-format (a strptime format that carries its own zone): the value is shifted / converted like any other and
+    # printed with the same format
+    pf = "%Y-%m-%dT%H:%M:%S%z"
+    ptoks = dforms["cal_ext"][0] + [mtext.lit("T")] + tforms["hhmmss_ext"][0] + zforms["hhmm"][0]
+    for dvp, tvp, zk in ((VECTORS[0][0], {"h": 0, "m": 30, "s": 0, "frac": "0"}, "hhmm"),
+                         (VECTORS[1][0], {"h": 23, "m": 59, "s": 59, "frac": "0"}, "hhmm"), (dvu, tvu, "hhmm")):
+        for zv_name, zv in (("hhmm", ZVALS["hhmm"]), ("neg", {"zsign": "-", "zh": 0, "zm": 30}), ("z0", {"zsign": "+", "zh": 0, "zm": 0})):
+            text = mtext.render(ptoks, dict(dvp, **tvp, **zv))
+            saved = ZVALS.get("_pf")
+            ZVALS["_pf"] = zv
+            entry = (text, "cal_ext", ptoks, "cal", "complete", dvp, "hhmmss_ext", tvp, "_pf")
+            try:
+                for offs in ([], ["P1D"], ["-P1M"], ["PT36H"]):
+                    for utc in (False, True):
+                        ctx.state_count += 1
+                        check_shift(ctx, "greg", entry, offs, extra=["--parse-format", pf], utc=utc)
+            finally:
+                if saved is None:
+                    ZVALS.pop("_pf", None)
     # calendar through the environment variable
     for kind in ("360", "365", "366"):
         for e in ents[:20]:
